@@ -46,6 +46,8 @@ for it in reversed(json.load(sys.stdin)):      # opposite order: a rendering mus
             db = builder.build(it['model'], note_as_object='shared')
         elif it['route'] == 'built_stub':
             db = builder.build_stub(it['model'])[0]
+        elif it['route'] == 'built_col_moved':
+            db = builder.build_col_moved(it['model'])
         else:
             db = builder.build(it['model'])
         out[str(it['tid'])] = hashlib.sha1(db.sql.encode('utf8')).hexdigest()
@@ -85,6 +87,8 @@ def _exec_chunk(items):
                 db = builder.build_abstract(m)
             elif it['route'] == 'built_shared_notes':
                 db = builder.build(m, note_as_object='shared')
+            elif it['route'] == 'built_col_moved':
+                db = builder.build_col_moved(m)
             elif it['route'] == 'built_stub':
                 db, m = builder.build_stub(m)          # the content plus a table without columns (reachable through the API only)
                 rec['model'] = m
@@ -217,7 +221,7 @@ def standard_main(prop: str, clauses: List[str], technique: str, rule: str, nont
         ms = docs.gen_models(lo, lo + n - 1, False, True, rep)
         for seed, dm in ms:
             # morphed: built from another content, rendered, then edited in place into this one (pv/builder.py)
-            for route in ('parsed', ('built_abstract', 'built', 'built_shared_notes', 'built_stub')[seed % 4],
+            for route in ('parsed', ('built_abstract', 'built', 'built_shared_notes', 'built_stub', 'built_col_moved')[seed % 5],
                           'morphed:' + ('names', 'types', 'settings', 'refs', 'names+types+settings+refs')[seed % 5]):
                 tid += 1
                 items[tid] = {'tid': tid, 'route': route, 'doc': dm['doc'], 'model': dm['model'], 'fseed': None, 'pinned': {},
